@@ -173,7 +173,13 @@ def check_container(E, st, exp, label, full=True):
             want[k] = exp[k]
     stride = spec.pad_to(4 * ntr_grid, 512)
     if 'inherit_version' in exp:
-        stride = spec.footer_stride(exp['inherit_version'], 4 * ntr_grid)
+        # a derived file (crop / re-block) states a version of its own; what matters is that the conventions readers
+        # derive from THAT version are the ones the file follows and give the same geometry as the source's did
+        ver_out = read_field(st, 72, '<I')
+        ver_out = fx(ver_out)
+        stride = spec.footer_stride(ver_out, 4 * ntr_grid)
+        if not (ver_out > spec.V_0_2_1):
+            want.pop('tracecount', None)      # readers of such files take the trace count from the grid, not the field
     total = 8192 + data_bytes + stride * len(exp['stored'])
     if not full:
         return dict(data_bytes=data_bytes, stride=stride, total=total, pad=pad)
@@ -189,8 +195,9 @@ def check_container(E, st, exp, label, full=True):
         E.check(got == want[name], label + ': header field %s states the true value' % name)
     ver = read_field(st, 72, '<I')
     if 'inherit_version' in exp:
-        # a file derived from another file keeps that file's format version and therefore its footer convention
-        E.check(ver == exp['inherit_version'], label + ': format version is that of the source file')
+        # the interval field is carried over, so the unit the version implies (ms up to 0.1.6, us after) must be too
+        E.check((ver > spec.V_0_1_6) == (exp['inherit_version'] > spec.V_0_1_6),
+                label + ': recorded version implies the same sample-interval unit as the source file (sample axis unchanged)')
     else:
         E.check(ver > spec.V_0_2_1, label + ': recorded version selects the conventions the writer used (padded footer, trace-count field, microsecond interval)')
     if 'version_enc' in exp:
@@ -330,7 +337,7 @@ def numpy_item(bs, rate, nb, props, opts=None):
         if hdr_fields:
             th = {}
             for f, dt in hdr_fields:
-                H[f] = Hdr('hdr_%d' % f, 2, bits={'i2': 16, 'i4': 32, 'i8': 64}[dt])
+                H[f] = Hdr('hdr_%d' % f, 2, bits={'i2': 16, 'i4': 32, 'i8': 64, '>i4': 32}[dt])
                 th[int(f)] = LazyArr((dims[0], dims[1]), (lambda idx, f=f: H[f](idx[0], idx[1])), 'num', dt)
             kw['trace_headers'] = th
         ax = opts.get('axes')
@@ -426,6 +433,36 @@ def check_axes(E, r, dims, il0, il_step, xl0, xl_step, z0, dz_ms, label):
     E.check(bool(r.structured) is True, label + ': structured flag')
 
 
+def check_axes_fp(E, mm, st, model, dims, label):
+    """C05, binary64 part: interval field, sample count and sample values for any whole-microsecond interval."""
+    from symx.symfloat import SymFloat, to_fp
+    R = mm['read']
+    n_s = dims[-1]
+    E.reached(label + ':axes-fp')
+    got_iv = read_field(st, 28, '<i')
+    E.check(got_iv == model.dt_us_fp, label + ': stored sample interval equals the source interval in microseconds')
+    E.check(read_field(st, 16, '<i') == model.t0_ms, label + ': stored start time equals the source start time')
+    with Quiet():
+        r = R.SgzReader(shenv.ShimFile(st))
+    zs = r.zslices
+    E.check(zs.shape[0] == n_s, label + ': sample axis has the source count')
+    k = E.fresh('k_z', 0)
+    E.assume(b_and(k < n_s, k < zs.shape[0]))
+    v = aget(zs, k)
+    # true value t0 + k * interval_us / 1000 (exact rational), compared within 1e-6 ms
+    exact = z3.fpRealToFP(z3.RNE(), z3.ToReal(term_(model.t0_ms)) + z3.ToReal(term_(k)) * z3.ToReal(term_(model.dt_us_fp)) / 1000, z3.Float64())
+    if isinstance(v, SymFloat):
+        diff = z3.fpAbs(z3.fpSub(z3.RNE(), v.t, exact))
+        E.check(mkbool(z3.fpLEQ(diff, z3.FPVal(1e-6, z3.Float64()))), label + ': sample axis value k is t0 + k*interval within float rounding')
+    else:
+        E.check(False, label + ': sample axis value is not a float (%s)' % type(v).__name__)
+
+
+def term_(x):
+    from symx.core import term
+    return term(x)
+
+
 def check_headers_readback(E, r, dims, stored, hdrs, label):
     import segyio
     t = E.fresh('hdr_trace', 0)
@@ -497,6 +534,17 @@ def segy_item(kind, bs, rate, nb, props, opts=None):
         if opts.get('samples') == 'sym':
             t0_ms = E.fresh('t0_ms', -32768, 32767)
             dt_ms = E.fresh('dt_ms', 1, 65)
+        dt_us_fp = None
+        if opts.get('samples') == 'fp':
+            # any whole number of microseconds: binary64 arithmetic of the sample axis is decided with z3's FP theory
+            import symx.core as _core
+            _core.FP_MODE[0] = True
+            t0_ms = E.fresh('t0_ms', *opts.get('t0_range', (-32768, 32767)))
+            dt_us_fp = E.fresh('dt_us', *opts.get('dt_range', (1, 65535)))
+            dt_ms = None
+        else:
+            import symx.core as _core
+            _core.FP_MODE[0] = False
         if kind == '2d':
             ntr = E.fresh('n_tr', max(2, (nb[0] - 1) * bs[1] + 1), nb[0] * bs[1])
             # enumerated: just above the last full group, and the exact multiple of the group size
@@ -560,6 +608,7 @@ def segy_item(kind, bs, rate, nb, props, opts=None):
                         out['hv_%d_%d' % (f, t)] = ((raw + half) % (2 * half)) - half
                 return out
             E.watches.append(watch)
+        model.dt_us_fp = dt_us_fp
         shsegy.install_segy(mm, fs, model, Filetype)
         lazyarr.ARRAY_EQUAL_HOOK[0] = array_equal_hook(model)
         lazyarr.NP_ALL_HOOK[0] = np_all_hook
@@ -651,7 +700,9 @@ def finish_segy(E, mm, fs, st, model, dims, bs, rate, props, opts, window, H):
         win = (window['min_il'], window['max_il'], window['min_xl'], window['max_xl'])
     if ('C04' in props or 'C09' in props or 'C11' in props) and part in (None, 'headers'):
         check_segy_headers(E, mm, st, model, dims, detection, label, H, win)
-    if 'C05' in props:
+    if 'C05' in props and getattr(model, 'dt_us_fp', None) is not None:
+        check_axes_fp(E, mm, st, model, dims, label)
+    elif 'C05' in props:
         R = mm['read']
         with Quiet():
             r = R.SgzReader(shenv.ShimFile(st))
@@ -1019,6 +1070,11 @@ def items_for(prop, tier):
                 cfgs.append(('regular', (4, 4, 256), 8, (2, 2, 1), dict(axes='sym', il_step=steps[0], xl_step=steps[1], dimcap=1)))
             cfgs.append(('regular', (4, 4, 256), 8, (1, 1, 2), dict(samples='sym', dimcap=1)))
             cfgs.append(('2d', (1, 16, 256), 8, (1, 2), dict(samples='sym', dimcap=1)))
+            # binary64 part: any whole-microsecond interval (ranges split so that each FP query stays small)
+            for lo, hi in ((1, 999), (1000, 1999), (2000, 8191), (8192, 65535)):
+                cfgs.append(('regular', (4, 4, 256), 8, (1, 1, 1), dict(samples='fp', dt_range=(lo, hi), t0_range=(-32768, 32767) if not quick else (-1000, 1000),
+                                                                    ilxl=(2, 2), dimcap=4, ns_cap=1 if quick else 6)))
+            cfgs.append(('2d', (1, 16, 256), 8, (1, 1), dict(samples='fp', dt_range=(1, 65535), t0_range=(0, 0), dimcap=0, ns_cap=1)))
         if prop == 'C11':
             for fam in ('il-from-zero', 'il-interior', 'xl-from-zero', 'xl-interior', 'both-interior'):
                 for ri in (False, True):
@@ -1040,7 +1096,7 @@ def items_for(prop, tier):
             # NumPy route: header arrays of any integer dtype / symbolic axes
             ncfgs = []
             if prop == 'C04':
-                for dt in ('i2', 'i4', 'i8'):
+                for dt in ('i2', 'i4', 'i8', '>i4'):      # '>i4': non-native byte order (values sliced out of raw SEG-Y bytes)
                     ncfgs.append(dict(headers=((73, dt), (21, 'i4'))))      # (dict given in non-ascending field order)
             else:
                 for steps in ((2, 3), (-1, 1)):
